@@ -2,6 +2,8 @@
 Driver/C14.lean — line-protocol driver for C14.
 in : {"case": n, "ops": [Op]}                      a history of table writes / reads / drops
    | {"case": n, "pops": [{"p","arg","st","f"}]}    a history of path writes
+   | {"case": n, "opt": {fmt, wnamed, rcalls, rnamed, via, schema}}   one write + one read with options:
+        out {"opt": {w_model, w_spec, w_scope, r_model, r_spec, r_scope, …}} (option lists of the statements)
 out: {"case": n, "steps": [{"model": {ok,out}, "mcat": [[name,table]], "cache": [[name,[col]]],
                             "spec": {ok,out}, "scat": [[name,table]], "scope": [names],
                             "exists": bool, "tables": [names], "columns": [[name,ty]]}]}
@@ -41,14 +43,44 @@ def OpIn.toSpecOp : OpIn → Op
   | .read n => .read n
   | .drop n => .drop n
 
+/-- one write with options followed by one read with options -/
+structure OptCase where
+  fmt : String
+  wnamed : Opts                    -- keyword arguments of df.write.<fmt>(path, …)
+  rcalls : List RCall              -- builder calls on session.read
+  rnamed : Opts                    -- keyword arguments of the read call
+  via : Via
+  schema : Option String := none   -- the `columns` text of the schema given to the read, if any
+  deriving FromJson
+
 structure Case where
   case : Nat
   ops : Option (List OpIn) := none
   pops : Option (List POp) := none
+  opt : Option OptCase := none
   gen : Option Bool := none
   deriving FromJson
 
+def optScope (vals : List Gen.OptVal) : List String :=
+  if H_optionValueQuoted vals then [] else ["H_optionValueQuoted"]
+
+def optCaseJson (c : OptCase) : Json :=
+  let fl := genRFlags c.fmt
+  let namedOk : Bool := decide ((keys c.rnamed).Nodup) && c.rnamed.all (fun e => !e.2.isNone) &&
+    (c.via != Via.method || !fl.call.isSome || (keys c.rnamed).all (fun k => (Gen.readerParams c.fmt).contains k))
+  Json.mkObj [
+    ("w_model", renderedJson (writerRendered c.fmt c.wnamed)),
+    ("w_spec", optsPlain (specWriterOpts c.fmt (Gen.writerParams c.fmt) c.wnamed)),
+    ("w_scope", toJson (optScope (c.wnamed.map (·.2)))),
+    ("r_model", renderedJson (readerRendered c.fmt c.via c.rcalls c.rnamed c.schema "<inferred>")),
+    ("r_spec", optsPlain (specReaderOpts Gen.loadPops (Gen.loadColumnsFor.contains c.fmt) c.rcalls c.rnamed c.schema)),
+    ("r_scope", toJson (optScope (rcallVals c.rcalls ++ c.rnamed.map (·.2)) ++ (if namedOk then [] else ["D_readerArguments"]))),
+    ("write_eq", toJson Gen.duckWriteEq), ("read_eq", toJson Gen.loadEq), ("join", toJson Gen.toCsvJoin)]
+
 def optS : List (Option String) := [none, some "error", some "errorifexists", some "ignore", some "overwrite", some "append", some "bogus"]
+
+def fileFormats : List String := ["csv", "json", "parquet"]
+def optSamples : List Gen.OptVal := [.none, .bool true, .bool false, .str "", .str "x", .int 0, .int 3]
 
 /-- the regenerated decisions, printed so that the check can compare them with the live objects -/
 def genDump : Json :=
@@ -65,7 +97,18 @@ def genDump : Json :=
     ("flags", Json.mkObj [("byNameReorders", toJson Gen.byNameReorders), ("byNameSource", toJson (reprStr Gen.byNameSource)),
       ("insertPassesOverwrite", toJson Gen.insertPassesOverwrite), ("insertExecutes", toJson Gen.insertExecutes),
       ("fileValidatesFirst", toJson Gen.fileValidatesFirst), ("fileAppendRaises", toJson Gen.fileAppendRaises),
-      ("addTableSkipsWhenCached", toJson Gen.addTableSkipsWhenCached), ("tableSelectsCachedColumns", toJson Gen.tableSelectsCachedColumns)])]
+      ("addTableSkipsWhenCached", toJson Gen.addTableSkipsWhenCached), ("tableSelectsCachedColumns", toJson Gen.tableSelectsCachedColumns)]),
+    ("options", Json.mkObj [
+      ("toCsvKeeps", Json.arr (optSamples.map (fun v => Json.arr #[optValPlain v, toJson (Gen.toCsvKeeps v)])).toArray),
+      ("writerParams", Json.mkObj (fileFormats.map (fun f => (f, toJson (Gen.writerParams f))))),
+      ("writerCall", Json.mkObj (fileFormats.map (fun f => (f, Json.arr ((Gen.writerCall f).map (fun e => Json.arr #[toJson e.1, toJson (reprStr e.2)])).toArray)))),
+      ("readerParams", Json.mkObj (fileFormats.map (fun f => (f, toJson (Gen.readerParams f))))),
+      ("readerKeeps", Json.mkObj (fileFormats.map (fun f => (f, Json.arr (optSamples.map (fun v => Json.arr #[optValPlain v, toJson (Gen.readerKeeps f v)])).toArray)))),
+      ("readerMerge", Json.mkObj (fileFormats.map (fun f => (f, toJson ((Gen.readerMerge f).map reprStr))))),
+      ("loadMerge", toJson (Gen.loadMerge.map reprStr)), ("optionsMerge", toJson (Gen.optionsMerge.map reprStr)),
+      ("loadPops", toJson Gen.loadPops), ("loadColumnsFor", toJson Gen.loadColumnsFor),
+      ("loadReloadsWithSchema", toJson Gen.loadReloadsWithSchema),
+      ("duckWriteEq", toJson Gen.duckWriteEq), ("loadEq", toJson Gen.loadEq), ("toCsvJoin", toJson Gen.toCsvJoin)])]
 
 def opName : Op → String
   | .save n _ _ _ => n | .insertInto n _ _ => n | .read n => n | .drop n => n
@@ -112,6 +155,9 @@ def handle (line : String) : String :=
   | .error e => Json.compress (Json.mkObj [("err", toJson s!"bad-input: {e}")])
   | .ok c =>
     if c.gen = some true then Json.compress (Json.mkObj [("case", toJson c.case), ("gen", genDump)]) else
+    match c.opt with
+    | some oc => Json.compress (Json.mkObj [("case", toJson c.case), ("opt", optCaseJson oc)])
+    | none =>
     match c.ops, c.pops with
     | some ops, _ => Json.compress (Json.mkObj [("case", toJson c.case), ("steps", Json.arr (tableSteps ops { cat := [] } [] []).toArray)])
     | none, some pops => Json.compress (Json.mkObj [("case", toJson c.case), ("psteps", Json.arr (pathSteps pops [] [] []).toArray)])
